@@ -13,7 +13,8 @@ COMMITS = {1: "ea82f2d0", 2: "^b2257cf", 3: "0123abcd", 4: "fedc9876"}
 AUTHORS = {1: "Dan Davison", 2: "Ann Other 世界", 3: "Zoë", 4: "Émile de la Tour-Grande"}
 # long names made of (or ending in) double-width characters: the author column cuts them by characters
 AUTHORS_WIDE = {1: "山田太郎左衛門尉景元", 2: "Kangwook Lee (이강욱)", 3: "Z", 4: "田中鈴木佐藤高橋渡辺伊藤山本中村"}     # (3: a one-character name)
-TIMES = {1: "2021-08-22 18:20:19 -0700", 2: "2020-01-02 03:04:05 +0100", 3: "1999-12-31 23:59:59 +0000",
+# (zones east and west of UTC, with and without minutes)
+TIMES = {1: "2021-08-22 18:20:19 -0700", 2: "2020-01-02 03:04:05 +0100", 3: "1999-12-31 23:59:59 -0330",
          4: "2022-02-28 00:00:01 +1345"}
 CODES = ["    let x = 1;", "", "\tfn main() { 世界 }", "}", " // note: (not a blame) 12)", "x" * 30,
          "// see (Bob 2020-01-01 00:00:00 +0000 12) for details", "f(a) (X 1999-12-31 23:59:59 -0100 7)"]
@@ -96,7 +97,8 @@ def run(tier):
             m = _ROW.match(text)
             md, num, code = (m.group(1), m.group(2), m.group(3)) if m else (text, "", "")
             def which(table, md=md):
-                hits = [k for k, v in table.items() if v.strip()[:8] in md]
+                # (a time must be shown in full - the zone is part of it; names may be cut by the format's precision)
+                hits = [k for k, v in table.items() if (v if table is TIMES else v.strip()[:8]) in md]
                 return hits[0] if len(hits) == 1 else (0 if not hits else 99)
             commit = which(COMMITS)
             shows_all = fmt != "commit-only"
